@@ -6,13 +6,15 @@ def run(tier):
     c = vlib.Check("C03", tier)
     exe = vlib.build(["drv_endian"])["drv_endian"]
     c.mc("Endian", "MC_Endian", workers=8, timeout=900)
-    traces = c.drive(exe, [["@OUT", tier, vlib.SEED]], tag="endian")
-    c.traces = 1
-    # split the (large) trace into shards of lines so that 16 TLC processes validate in parallel
+    traces = c.drive(exe, [["@OUT", tier, sd] for sd in vlib.seeds(tier, 3)], tag="endian")
+    c.traces = len(traces)
+    # split the (large) traces into shards of lines so that 16 TLC processes validate in parallel
     import os
-    lines = open(traces[0]).read().splitlines()
-    head = lines[0]
-    body = lines[1:]
+    head, body = None, []
+    for t in traces:
+        lines = open(t).read().splitlines()
+        head = head or lines[0]
+        body += lines[1:]
     nsh = 8 if tier == "quick" else 16
     shards = []
     for i in range(nsh):
